@@ -236,6 +236,11 @@ class Sim:
             fn()
         return True
 
+    def small_step(self, dt: float = 1e-4) -> bool:
+        """One event-loop iteration during which virtual time advances by at most dt (step() alone jumps to the next timer, e.g. the keepalive)."""
+        self.net.at(self.clock + dt, lambda: None)
+        return self.step()
+
     def run(self, until: Callable[[], bool] | None = None, max_time: float | None = None, max_steps: int = MAX_STEPS) -> str:
         """Step until `until()` holds, virtual time passes max_time, the world is idle forever, or the step cap."""
         if max_time is not None:
